@@ -25,11 +25,11 @@ func (e effect) equal(o effect) bool {
 }
 
 type c14Item struct {
-	Name   string
-	Path   string // packet | stream
-	Plain  []byte
-	CRC    bool
-	Key    int // 1 or 2 (which installed key sealed it)
+	Name  string
+	Path  string // packet | stream
+	Plain []byte
+	CRC   bool
+	Key   int // 1 or 2 (which installed key sealed it)
 }
 
 // observe injects raw (packet) or writes raw (stream) and returns the effect.
@@ -329,22 +329,24 @@ func TestC14(t *testing.T) {
 	run.Assume("the genuine transmission's own effect is measured on the same victim immediately before the variants (positive control); membership claims are idempotent so the reference effect is re-measured after the first application")
 	cfgs := []hostCfg{{"", 1, true, false, false}, {"c14", 1, true, false, false}, {"c14", 0, true, false, false}, {"", 0, true, false, false}, {"c14", 1, true, false, true}}
 	k := 0
-	for ci, cfg := range cfgs {
-		for g := 0; g < 3; g++ {
-			k++
-			id := fmt.Sprintf("cfg%d/group%d", ci, g)
-			if !run.Mine(k) || !run.Want(id) {
-				continue
-			}
-			run.Journal(id, "start")
-			items := []int{g * 4, g*4 + 1, g*4 + 2, g*4 + 3}
-			var res []*c01Result
-			err := Bubble(t, func() { res = runC14(run, run.Seed()*41+int64(ci*10+g), cfg, items, id, run.Thorough()) })
-			if err != nil {
-				res = append(res, &c01Result{"C14/bubble", err.Error()})
-			}
-			for _, r := range res {
-				run.Violation(id, r.Key, r.What, map[string]any{"cfg": cfg.String()})
+	for rep := 0; rep < run.Pick(1, 10); rep++ {
+		for ci, cfg := range cfgs {
+			for g := 0; g < 3; g++ {
+				k++
+				id := fmt.Sprintf("cfg%d/group%d/rep%d", ci, g, rep)
+				if !run.Mine(k) || !run.Want(id) {
+					continue
+				}
+				run.Journal(id, "start")
+				items := []int{g * 4, g*4 + 1, g*4 + 2, g*4 + 3}
+				var res []*c01Result
+				err := Bubble(t, func() { res = runC14(run, run.Seed()*41+int64(ci*10+g)+int64(rep)*977, cfg, items, id, run.Thorough()) })
+				if err != nil {
+					res = append(res, &c01Result{"C14/bubble", err.Error()})
+				}
+				for _, r := range res {
+					run.Violation(id, r.Key, r.What, map[string]any{"cfg": cfg.String()})
+				}
 			}
 		}
 	}
